@@ -28,6 +28,9 @@ EXPLANATION += (' ' + 'GROUP/key-fields: on either path that chooses the Instrum
 TRUSTED = ['pretty_midi writes and parses faithfully what its containers hold', 'PrettyMIDI.write sorts events']
 NOT_DECIDED = ['times within one MIDI tick', 'pretty_midi internal encoding']
 ASSUMPTIONS = []
+# rules whose verdict does not depend on how the statements are arranged (semantic analyses); all other rules are shape rules:
+# when one of those fails in a function that was restructured relative to reference/signatures.json the verdict is "cannot decide"
+ROBUST = ('ORD/traversal', 'FILE', 'CTOR')
 FLOORS = {'GROUP': 6, 'FRESH': 1, 'ORD': 8, 'CTOR': 6, 'FIELDS': 6, 'LAYOUT': 3, 'MINOR': 4, 'TEMPO': 4}
 
 TRIPLE = ('instrument', 'program', 'is_drum')
@@ -309,7 +312,7 @@ def fields(ctx, w, r):
     ok = fs <= wr and fs <= rd
     ctx.ob('FIELDS/' + cont, w, w.node, ok, 'writer reads and reader restores %s' % sorted(fs) if ok else
            '%s: the writer reads %s and the reader writes %s; the round trip needs %s on both sides (missing: writer %s, reader %s)' % (
-               cont, sorted(wr), sorted(rd), sorted(fs), sorted(fs - wr), sorted(fs - rd)), construct='%s: field coverage' % cont)
+               cont, sorted(wr), sorted(rd), sorted(fs), sorted(fs - wr), sorted(fs - rd)), construct='%s: field coverage' % cont, depends=[r])
 
 
 def layout(ctx, r):
